@@ -62,6 +62,7 @@ types.append(('String', 'String', "v", [(rs(s) + ".to_string()", "str", s) for s
 types.append(('ref_String', '&String', "v", [("&" + rs(s) + ".to_string()", "str", s) for s in strs[1:3]]))
 types.append(('bytes', '&[u8]', "v", [("&[][..]", "bytes", "[]"), ("&[0u8, 255, 34][..]", "bytes", "[0, 255, 34]")]))
 types.append(('ref_u8', '&u8', "v", [("&7u8", "u64", "7")]))
+types.append(('mutref_u16', '&mut u16', "v", [("&mut 513u16", "u64", "513")]))
 types.append(('refref_i32', '&&i32', "v", [("&&-7i32", "i64", "-7")]))
 types.append(('box_u64', 'Box<u64>', "v", [("Box::new(9u64)", "u64", "9")]))
 types.append(('display', 'DV', "%v", [("DV(" + rs(s) + ")", "debug", s) for s in ["shown", "quo\"te", ""]]))
@@ -69,6 +70,10 @@ types.append(('debug', 'DV', "?v", [("DV(" + rs(s) + ")", "debug", "DBG<" + s + 
 types.append(('field_display', 'DV', "tracing::field::display(v)", [("DV(\"fd\")", "debug", "fd")]))
 types.append(('field_debug', 'DV', "tracing::field::debug(v)", [("DV(\"fg\")", "debug", "DBG<fg>")]))
 types.append(('error', '&(dyn std::error::Error + \'static)', "v", [("&MyErr(\"outer\", Some(Box::new(MyErr(\"inner\", None))))", "error", "outer/inner"), ("&MyErr(\"solo\", None)", "error", "solo")]))
+for sfx, bounds in [("send", "Send + "), ("sync", "Sync + "), ("send_sync", "Send + Sync + ")]:
+    types.append(('error_' + sfx, "&(dyn std::error::Error + %s'static)" % bounds, "v", [("&MyErr(\"outer\", Some(Box::new(MyErr(\"inner\", None))))", "error", "outer/inner"), ("&MyErr(\"solo\", None)", "error", "solo")]))
+types.append(('box_error_send_sync', "Box<dyn std::error::Error + Send + Sync + 'static>", "v", [("Box::new(MyErr(\"outer\", Some(Box::new(MyErr(\"inner\", None)))))", "error", "outer/inner")]))
+types.append(('box_error', "Box<dyn std::error::Error + 'static>", "v", [("Box::new(MyErr(\"solo\", None))", "error", "solo")]))
 types.append(('format_args', 'u32', "format_args!(\"fa {}\", v)", [("5", "debug", "fa 5")]))
 
 out.append("// @generated by tools/gen_c10.py — do not edit")
